@@ -21,7 +21,7 @@ type engine struct{}
 
 func (engine) ID() string { return "C20" }
 func (engine) CoqHeader() string {
-	return "From Eino Require Import Base.Util Model.Builder Corr.C20.\n"
+	return "From Eino Require Import Base.Util Model.Builder Model.BuilderNested Corr.C20.\n"
 }
 func (engine) CoqCaseType() string { return "ccase" }
 
@@ -54,6 +54,24 @@ func normalize(c *Case) {
 				k.Fields[0] = f
 			} else {
 				staticField[k.To] = k.Fields[0]
+			}
+		}
+		if c.FE == "nested" {
+			if k.Op == "inner" && k.Sub != nil {
+				sub := Case{FE: "graph", Calls: []Call{*k.Sub}}
+				normalize(&sub)
+				s0 := sub.Calls[0]
+				if s0.Op == "addnode" && s0.Kind != "pass" {
+					s0.Kind = "lambda" // no sub graphs inside a sub graph
+				}
+				s0.NeedState, s0.NodeKeyOpt, s0.ID, s0.Sub = false, false, "", nil
+				k.Sub = &s0
+			}
+			if k.Op == "addnode" && k.Kind != "pass" {
+				k.Kind = "lambda" // the sub graphs of a nested case are named values (op sub)
+			}
+			if k.Op == "sub" && k.Kind != "subbad" {
+				k.Kind = "subok"
 			}
 		}
 		if k.Kind != "lambda" {
@@ -124,6 +142,18 @@ func coqItems(items []Item) string {
 }
 
 func coqCall(fe string, c *Call, ord, sord []string) string {
+	if fe == "nested" {
+		switch c.Op {
+		case "sub":
+			return lib.CoqApp("NSub", lib.CoqStr(c.Key), lib.CoqStr(c.ID), lib.CoqBool(c.Kind != "subbad"))
+		case "inner":
+			if c.Sub == nil {
+				return lib.CoqApp("NInner", lib.CoqStr(""), "(GCompile opt_default)") // no such value: a no-op on both sides
+			}
+			return lib.CoqApp("NInner", lib.CoqStr(c.ID), "("+coqCall("graph", c.Sub, nil, nil)+")")
+		}
+		return lib.CoqApp("NOuter", "("+coqCall("graph", c, nil, nil)+")")
+	}
 	switch fe + "/" + c.Op {
 	case "graph/addnode":
 		return lib.CoqApp("GAddNode", lib.CoqStr(c.Key), coqKind(c.Kind), lib.CoqBool(c.NeedState), lib.CoqBool(c.NodeKeyOpt))
@@ -183,7 +213,7 @@ func coqCase(c *Case, obs []CallObs, intact bool) string {
 	for i := range c.Calls {
 		pairs[i] = lib.CoqPair(coqCall(c.FE, &c.Calls[i], obs[i].Ord, obs[i].SOrd), lib.CoqPair(coqObs(obs[i]), lib.CoqPair(lib.CoqNList(obs[i].Gone), lib.CoqNList(obs[i].New))))
 	}
-	ctor := map[string]string{"graph": "CaseG", "chain": "CaseC", "workflow": "CaseW"}[c.FE]
+	ctor := map[string]string{"graph": "CaseG", "chain": "CaseC", "workflow": "CaseW", "nested": "CaseN"}[c.FE]
 	return lib.CoqApp(ctor, lib.CoqBool(c.State), lib.CoqList(pairs), lib.CoqBool(intact))
 }
 
@@ -259,6 +289,12 @@ func (engine) Run(ci any) lib.Result {
 	}
 	// (2) the first build error sticks
 	switch c.FE {
+	case "nested":
+		// every builder of the case on its own (nested.go): sticky error, no modification after a Compile — an outer
+		// Compile compiles the inner graphs its nodes hold —, nothing ill-formed accepted
+		if sig, what := nestedOracle(c, first.obs); sig != "" {
+			fail(sig, what)
+		}
 	case "graph":
 		sticky := ""
 		for i, o := range first.obs {
@@ -330,8 +366,10 @@ func (engine) Run(ci any) lib.Result {
 		fail("runner-affected", first.affected)
 	}
 	// (6) soundness of acceptance: nothing ill-formed (spec.go, independent of the model) got through
-	if sig, what := acceptedIllFormed(c, first.obs); sig != "" {
-		fail(sig, what)
+	if c.FE != "nested" {
+		if sig, what := acceptedIllFormed(c, first.obs); sig != "" {
+			fail(sig, what)
+		}
 	}
 	// (5) determinism: same outcome on every attempt
 	classVaries := false
